@@ -29,6 +29,7 @@ type Obligation struct {
 	File    string
 	Names   map[string]string // interesting named terms for model display
 	Trivial bool
+	Candidate string // model of the quantifier-free weakening (candidate counterexample)
 }
 
 type Run struct {
@@ -60,6 +61,18 @@ type Run struct {
 	spawned    map[string]bool
 	heapHavocs []*State
 	locks      []lockRec
+	cells      []cellRec
+	topFrame   *Frame
+	inQuant    int
+	stores     map[string]storeRec
+	allocs     map[string]bool
+	constCell  map[string]*Val // cell address -> the single value ever stored (write-once variables)
+	constCand  map[string]bool
+}
+
+type cellRec struct {
+	key  string
+	addr string
 }
 
 func newRun(e *Engine, fn *ssa.Function) *Run {
@@ -67,11 +80,12 @@ func newRun(e *Engine, fn *ssa.Function) *Run {
 		kindIDs: map[string]int{}, loadMemo: map[string]string{}, strLits: map[string]string{}, tagIDs: map[string]int{},
 		top: fn, instCount: map[string]int{}, notes: map[string]bool{}, inlined: map[string]bool{}, usedSpecs: map[string]bool{},
 		assumes: map[string]bool{}, names: map[string]string{}, oblNames: map[string]int{}, ifaceImpl: map[string]bool{},
-		usedAts: map[string]bool{}, defaulted: map[string]bool{}, spawned: map[string]bool{}}
+		usedAts: map[string]bool{}, defaulted: map[string]bool{}, spawned: map[string]bool{}, stores: map[string]storeRec{}, allocs: map[string]bool{}, constCell: map[string]*Val{}, constCand: map[string]bool{}}
 	if fn != nil {
 		r.topName = e.funcName(fn)
 	}
 	r.declKey("g|$heap", "Int")
+	r.facts.Assert("(>= " + r.initial("g|$heap") + " 0)")
 	r.declKey("g|$held", "(Array Int Bool)")
 	r.declKey("g|$closed", "(Array Int Bool)")
 	r.declKey("g|$panicking", "Int")
@@ -231,6 +245,11 @@ type Frame struct {
 	rets     []retRec
 	parent   *Frame
 	panics   []*State
+	loopFrames map[*ssa.BasicBlock][]loopFrameRec
+}
+
+type loopFrameRec struct {
+	key, old, hin string
 }
 
 type retRec struct {
@@ -277,6 +296,12 @@ func (r *Run) calleeName(c *ssa.CallCommon) string {
 		if g, ok := v.X.(*ssa.Global); ok {
 			return shortPkgDot(g.Pkg.Pkg.Path()) + g.Name()
 		}
+	case *ssa.Extract:
+		if cl, ok := v.Tuple.(*ssa.Call); ok {
+			return fmt.Sprintf("result:%s.%d", r.calleeName(&cl.Call), v.Index)
+		}
+	case *ssa.Call:
+		return "result:" + r.calleeName(&v.Call)
 	case *ssa.Parameter:
 		return "param:" + v.Name()
 	case *ssa.FreeVar:
@@ -429,7 +454,7 @@ func (r *Run) funcVal(f *ssa.Function) Val {
 	c := r.facts.Const(sym("fn|"+name), "Int")
 	if !r.once["fn|"+name] {
 		r.once["fn|"+name] = true
-		r.facts.Assert(fmt.Sprintf("(and (< %s 0) (= (refkind %s) %d))", c, c, r.kindID("fn|"+name)))
+		r.facts.Assert(fmt.Sprintf("(and (< %s 0) (= (refkind %s) %d) (= (root %s) %s))", c, c, r.kindID("fn|"+name), c, c))
 	}
 	return Val{K: KRef, T: f.Type(), S: c, Fn: f}
 }
@@ -460,7 +485,30 @@ func (r *Run) constVal(c *ssa.Const) Val {
 
 // require emits an obligation and then assumes the condition on this path.
 func (r *Run) require(st *State, kind, fname, name string, cond string, tags []string, pos token.Pos, text string) {
+	r.requireGF(st, kind, fname, name, cond, cond, tags, pos, text)
+}
+
+// requireExpr proves a contract expression (goal form) and then assumes it (fact form).
+func (fr *Frame) requireExpr(st *State, kind, fname, name string, e *Expr, extra map[string]Val, tags []string, pos token.Pos, text string) {
+	r := fr.r
+	g, err := fr.evalGoal(st, e, extra)
+	if err != nil {
+		r.note(fmt.Sprintf("%s: %s %q: %v", fr.fname, kind, text, err))
+		r.evalErrors = append(r.evalErrors, fmt.Sprintf("%s: %s %q: %v", fr.fname, kind, text, err))
+		return
+	}
+	f, err := fr.eval(st, e, extra)
+	if err != nil {
+		f = g
+	}
+	r.requireGF(st, kind, fname, name, g.S, f.S, tags, pos, text)
+}
+
+func (r *Run) requireGF(st *State, kind, fname, name string, cond, fact string, tags []string, pos token.Pos, text string) {
 	if cond == "true" || st.pc == "false" {
+		if fact != "true" && st.pc != "false" {
+			r.facts.Assert(sImp(st.pc, fact))
+		}
 		return
 	}
 	if r.dry == 0 {
@@ -469,10 +517,24 @@ func (r *Run) require(st *State, kind, fname, name string, cond string, tags []s
 		if n := r.oblNames[full]; n > 1 {
 			full = fmt.Sprintf("%s~%d", full, n)
 		}
+		goal := cond
+		if k := matchKnown(r.eng.known, "", full); k != nil && k.regionExpr != nil && r.topFrame != nil && r.topFrame.entry != nil {
+			// known finding delimited by a region R over the entry state: the obligation must
+			// hold outside R; inside R it is expected to fail (reported as KNOWN-FINDING).
+			ev := &evaluator{fr: r.topFrame, r: r, st: r.topFrame.entry, old: r.topFrame.entry, bound: map[string]Val{}, pkg: r.topFrame.fn.Pkg}
+			rv, err := ev.evalTop(k.regionExpr)
+			if err != nil {
+				r.evalErrors = append(r.evalErrors, fmt.Sprintf("known finding region %q: %v", k.Region, err))
+			} else {
+				r.obls = append(r.obls, &Obligation{Name: full + "!finding", Kind: kind, Func: fname, Tags: tags, Pos: r.eng.pos(pos), Text: text + " [inside known-finding region " + k.Region + "]",
+					NFacts: r.facts.Len(), Pc: sAnd(st.pc, rv.S), Goal: cond})
+				goal = sOr(rv.S, cond)
+			}
+		}
 		r.obls = append(r.obls, &Obligation{Name: full, Kind: kind, Func: fname, Tags: tags, Pos: r.eng.pos(pos), Text: text,
-			NFacts: r.facts.Len(), Pc: st.pc, Goal: cond})
+			NFacts: r.facts.Len(), Pc: st.pc, Goal: goal})
 	}
-	r.facts.Assert(sImp(st.pc, cond))
+	r.facts.Assert(sImp(st.pc, fact))
 }
 
 func (r *Run) assume(st *State, cond string) {
@@ -518,6 +580,22 @@ func (r *Run) execFunc(fr *Frame, st *State, args []Val, binds []Val) execResult
 	}
 	fr.entry = st.clone()
 	if fr.contract != nil {
+		for _, lc := range fr.contract.Locals {
+			v, err := fr.eval(st, lc.Expr, nil)
+			if err != nil {
+				r.evalErrors = append(r.evalErrors, fmt.Sprintf("%s: local %s: %v", fr.fname, lc.Name, err))
+				continue
+			}
+			r.set(st, "g|"+lc.Name, v.S)
+		}
+		for _, ac := range fr.contract.Ats {
+			if ac.Kind == "bind" && ac.Sort != "" {
+				cname := sym("bind|" + fr.inst + "|" + ac.Name)
+				r.facts.DeclareFun(cname, nil, specSort(ac.Sort))
+				fr.names[ac.Name] = sortToVal(ac.Sort, cname)
+				r.names[fr.inst+":"+ac.Name] = cname
+			}
+		}
 		for _, en := range fr.contract.Entry {
 			v, err := fr.eval(st, en.Expr, nil)
 			if err != nil {
@@ -740,6 +818,11 @@ func (fr *Frame) runBlocks(order []*ssa.BasicBlock, in map[*ssa.BasicBlock][]*St
 					continue
 				}
 				fr.checkInvariant(s, b, es, "inv-preserve")
+				for _, lf := range fr.loopFrames[s] {
+					p := r.facts.Fresh("lframep", "Int")
+					goal := sImp(fmt.Sprintf("(<= (root %s) %s)", p, lf.hin), sEq(sSelect(r.get(es, lf.key), p), sSelect(lf.old, p)))
+					r.require(es, "inv-preserve", fr.oblFunc(), fr.oblName(fmt.Sprintf("loop#%d.frame(%s)", fr.loopOrd[s], keyPrefix(lf.key))), goal, nil, s.Instrs[0].Pos(), "loop modifies only objects allocated inside it ("+lf.key+")")
+				}
 				continue
 			}
 			if region != nil && !region[s] {
@@ -799,13 +882,9 @@ func (fr *Frame) checkInvariant(h, from *ssa.BasicBlock, es *State, kind string)
 		v.T = phi.Type()
 		fr.vals[phi] = v
 	}
+	_ = r
 	for i, c := range invs {
-		v, err := fr.eval(es, c.Expr, nil)
-		if err != nil {
-			r.note(fmt.Sprintf("%s: loop#%d invariant %q: %v", fr.fname, fr.loopOrd[h], c.Text, err))
-			continue
-		}
-		r.require(es, kind, fr.fname, fmt.Sprintf("loop#%d.%d", fr.loopOrd[h], i+1), v.S, c.Tags, h.Instrs[0].Pos(), c.Text)
+		fr.requireExpr(es, kind, fr.fname, fmt.Sprintf("loop#%d.%d", fr.loopOrd[h], i+1), c.Expr, nil, c.Tags, h.Instrs[0].Pos(), c.Text)
 	}
 	for _, phi := range phisOf(h) {
 		if old, ok := saved[phi]; ok {
@@ -827,12 +906,7 @@ func (fr *Frame) enterLoop(h *ssa.BasicBlock, st *State) *State {
 	}
 	// inv-init: phi values are already the forward-edge merge
 	for i, c := range invs {
-		v, err := fr.eval(st, c.Expr, nil)
-		if err != nil {
-			r.note(fmt.Sprintf("%s: loop#%d invariant %q: %v", fr.fname, ord, c.Text, err))
-			continue
-		}
-		r.require(st, "inv-init", fr.fname, fmt.Sprintf("loop#%d.%d", ord, i+1), v.S, c.Tags, h.Instrs[0].Pos(), c.Text)
+		fr.requireExpr(st, "inv-init", fr.fname, fmt.Sprintf("loop#%d.%d", ord, i+1), c.Expr, nil, c.Tags, h.Instrs[0].Pos(), c.Text)
 	}
 	body := naturalLoop(h)
 	// --- dry run to discover the modified set
@@ -847,6 +921,10 @@ func (fr *Frame) enterLoop(h *ssa.BasicBlock, st *State) *State {
 	savedMem0 := copyStrMap(r.mem0)
 	savedRets := len(fr.rets)
 	savedObls := len(r.obls)
+	savedStr := copyStrMap(r.strLits)
+	savedCells := len(r.cells)
+	savedLocks := len(r.locks)
+	savedPanics := len(fr.panics)
 	r.dry++
 	dst := st.clone()
 	for _, phi := range phisOf(h) {
@@ -890,6 +968,10 @@ func (fr *Frame) enterLoop(h *ssa.BasicBlock, st *State) *State {
 	r.mem0 = savedMem0
 	fr.rets = fr.rets[:savedRets]
 	r.obls = r.obls[:savedObls]
+	r.strLits = savedStr
+	r.cells = r.cells[:savedCells]
+	r.locks = r.locks[:savedLocks]
+	fr.panics = fr.panics[:savedPanics]
 	// keys created during the dry run must stay declared in memSort (harmless)
 
 	// --- havoc
@@ -904,6 +986,22 @@ func (fr *Frame) enterLoop(h *ssa.BasicBlock, st *State) *State {
 			r.facts.Assert(fmt.Sprintf("(>= %s %s)", hs.mem[k], old))
 		}
 	}
+	if fr.contract != nil && fr.contract.LoopFrame[ord] {
+		hin := fr.topEntryHeap()
+		var recs []loopFrameRec
+		for _, k := range sortedKeys(modMem) {
+			if !(strings.HasPrefix(k, "F|") || strings.HasPrefix(k, "C|") || strings.HasPrefix(k, "E|") || strings.HasPrefix(k, "MD|") || strings.HasPrefix(k, "MV|")) {
+				continue
+			}
+			old := r.get(st, k)
+			r.assume(hs, fmt.Sprintf("(forall ((p Int)) (! (=> (<= (root p) %s) (= (select %s p) (select %s p))) :pattern ((select %s p))))", hin, hs.mem[k], old, hs.mem[k]))
+			recs = append(recs, loopFrameRec{k, old, hin})
+		}
+		if fr.loopFrames == nil {
+			fr.loopFrames = map[*ssa.BasicBlock][]loopFrameRec{}
+		}
+		fr.loopFrames[h] = recs
+	}
 	for _, k := range sortedKeys(modLoc) {
 		if ov, ok := st.locals[k]; ok {
 			hs.locals[k] = r.freshVal("hloc", ov.T, hs)
@@ -915,6 +1013,10 @@ func (fr *Frame) enterLoop(h *ssa.BasicBlock, st *State) *State {
 		nv := r.freshVal("phi_"+phi.Comment, phi.Type(), hs)
 		fr.vals[phi] = nv
 		r.names[fr.inst+":"+phi.Comment] = nv.S
+		if phi.Comment == "rangeindex" && nv.K == KInt {
+			// range-over-slice index: starts at -1 and only increments (built-in inductive invariant)
+			r.assume(hs, "(>= "+nv.S+" (- 1))")
+		}
 	}
 	// assume invariants
 	for _, c := range invs {
